@@ -201,6 +201,16 @@ def chunked(bs, acc, ctx, chunk, seed):
     """tofile crosses its internal chunk boundary (size overridden through the guarded hook)."""
     os.environ[CHUNK_ENV] = str(chunk)
     try:
+        for lsb0 in (False, True):
+            core.set_options(lsb0=lsb0)
+            _chunked(bs, acc, ctx, chunk, seed, lsb0)
+    finally:
+        core.set_options()
+        os.environ.pop(CHUNK_ENV, None)
+
+
+def _chunked(bs, acc, ctx, chunk, seed, lsb0):
+    if True:
         for L in sorted({chunk - 1, chunk, chunk + 1, 2 * chunk - 1, 2 * chunk, 2 * chunk + 3, 3 * chunk, 3 * chunk + 7, 5 * chunk + 1, 1, 0}):
             for d in families.edge(L, seed, full=False)[:7] if L else ['']:
                 exp = tob(d)
@@ -208,11 +218,11 @@ def chunked(bs, acc, ctx, chunk, seed):
                     s = getattr(bs, cls)(bin=d)
                     f = io.BytesIO()
                     got = obs(lambda: (s.tofile(f), f.getvalue())[1])
-                    acc.state((cls, L, chunk, d[:16]))
+                    acc.state((cls, L, chunk, d[:16], lsb0))
                     acc.step('tofile-chunk', 1, nontrivial=1, ok=1)
                     if got != ('ok', exp):
-                        acc.violation('tofile-chunk', 'value', dict(cls=cls, bits=d if L < 70 else f'{L} bits', chunk=chunk, group=f'chunk{chunk}'),
-                                      '\n'.join(["import os", f"os.environ['BITSTRING_VERIF'] = '1'; os.environ[{CHUNK_ENV!r}] = '{chunk}'", "import bitstring, io",
+                        acc.violation('tofile-chunk', 'value', dict(cls=cls, bits=d if L < 70 else f'{L} bits', chunk=chunk, lsb0=lsb0, group=f'chunk{chunk}-{lsb0}'),
+                                      '\n'.join(["import os", f"os.environ['BITSTRING_VERIF'] = '1'; os.environ[{CHUNK_ENV!r}] = '{chunk}'", "import bitstring, io", f"bitstring.options.lsb0 = {lsb0}",
                                                  f"s = bitstring.{cls}(bin={d!r})", "f = io.BytesIO(); s.tofile(f)", "assert f.getvalue() == s.tobytes(), (f.getvalue(), s.tobytes())"]), exp.hex(), str(got)[:100])
                 # Array.tofile goes the same way
                 a = bs.Array('uint8', bs.Bits(bin=d))
@@ -222,9 +232,7 @@ def chunked(bs, acc, ctx, chunk, seed):
                 if got != ('ok', exp):
                     acc.violation('tofile-chunk', 'value', dict(cls='Array', bits=f'{L} bits', chunk=chunk), "# Array.tofile across a chunk boundary\nassert False", exp.hex(), str(got)[:100])
                 acc.outcome(('chunk', chunk, L))
-        acc.sample(dict(chunk_bits=chunk, event="tofile(BytesIO) for contents of chunk-1, chunk, chunk+1, 2*chunk+3 ... bits"))
-    finally:
-        os.environ.pop(CHUNK_ENV, None)
+        acc.sample(dict(chunk_bits=chunk, lsb0=lsb0, event="tofile(BytesIO) for contents of chunk-1, chunk, chunk+1, 2*chunk+3 ... bits"))
 
 
 class HashSink:
